@@ -1925,7 +1925,10 @@ class TypeConfig:
 
     @property
     def pre_tasks(self) -> List["LightweightTask"]:
-        """Access pre-tasks"""
+        """Access pre-tasks (read-only once the configuration is sealed: the
+        list itself would let pre-tasks be added behind `add_pretasks`)"""
+        if self.__xpm__._sealed:
+            return tuple(self.__xpm__.pre_tasks)
         return self.__xpm__.pre_tasks
 
     def copy_dependencies(self, other: "Config"):
